@@ -385,6 +385,13 @@ Proof. exact file_disable_overwrite_unobservable. Qed.
 Print Assumptions C06_disable_overwrite_unobservable_file.
 
 
+(* the file store has no Delete: for every option setting and EVERY history (aliasing names
+   and titled successors included) what Exists once answered true for stays present *)
+Theorem C06_presence_monotone_file : forall (fx ig ov : bool) (h : list op) (s : file_store) (d : desc),
+  file_exists d s = true -> file_exists d (fst (runf (file_step fx ig ov) s h)) = true.
+Proof. exact file_run_fle. Qed.
+Print Assumptions C06_presence_monotone_file.
+
 (* whatever the options, in a history whose pushes do not use two names for one path
    ([no_alias]), a Fetch never returns bytes whose hash is not the requested digest
    (digestToPath -> file indirection included).  Partial: without [no_alias] the
